@@ -52,6 +52,30 @@ CLAIMS = {
     text="Partial (whiteners are outside: SVD/Cholesky on the scalar do not close). LinearScaler (standard with/without mean/std, min-max with a symbolic range, max-abs) and NormScaler (l1, l2, max) are fitted on symbolic integer matrices (n<=4, p<=2) incl. constant, all-zero columns and rows as separate paths; z3 ties offsets/scales to the textbook mean / std / min / max, the transform to the affine map of offsets()/scales() on training and unseen rows, the postconditions (zero mean, unit variance in cross-multiplied form, range ends attained, unit norm, finite output), commutation with row reordering (term identity), metadata pass-through and the empty-input / flipped-range errors.",
     technique="symbolic-scalar concolic execution + SMT (z3); term identity for row-wise invariance; native replay",
     design_ref="DESIGN.md §4 C16"),
+ "C09": dict(
+    text="Partial (k-means++ / k-means|| initialisation and tolerance-based stopping of the real L2Dist concretise and are outside). The real k-means fit / predict / transform run on symbolic integer data (n<=5, k<=3, d<=2) with Precomputed or seeded Random initialisation, L1 and squared-L2 reduced distances: every new point is assigned to a centroid at minimal reduced distance and transform returns that distance (ties free); one Lloyd step satisfies c_new*(count+1) == c_old + sum of assigned points for some nearest assignment; the squared cost with budget m+1 does not exceed the cost with budget m (decided for k=1 n=3 and k=2 n=2, otherwise proved up to lemma steps or evaluated on every path witness - stated non-exhaustive in evidence); reported inertia and cluster counts describe the returned centroids, also across restarts (counts sum to n; two restarts never give a higher inertia than one).",
+    technique="symbolic-scalar concolic execution + SMT (z3, per-query timeouts on nonlinear obligations); native f64 replay",
+    design_ref="DESIGN.md §4 C09"),
+ "C15": dict(
+    text="Gaussian and multinomial naive Bayes: fit on the whole symbolic dataset vs every fit_with chain over all splits into <=3 contiguous batches (n<=5, concrete label patterns incl. class-incomplete batches): class set, counts, priors, per-class means, variances / feature counts and log-probabilities equal the textbook estimates (cross-multiplied obligations, z3), and predict maximises the joint log-likelihood recomputed from the model's own statistics. Mini-batch k-means fit_with: running-mean recurrence with cumulative counts and the converged / not-converged verdict. FTRL: z and n recurrences of update and weights == 0 iff |z| <= l1 on symbolic state. The Gaussian NB smoothing-epsilon defect (incremental sigma differs from batch sigma when var_smoothing > 0) is reported as KNOWN-FINDING by dedicated jobs.",
+    technique="symbolic-scalar concolic execution + SMT (z3); native f64 replay",
+    design_ref="DESIGN.md §4 C15"),
+ "C06": dict(
+    text="Dense kernels (linear exactly; polynomial with integer degree as exact products, fractional degree and Gaussian through uninterpreted pow/exp whose argument terms are tied to the inputs) on symbolic integer records n<=4, d<=2: every entry equals the kernel function of its two rows, symmetry, unit Gaussian diagonal, and size / sum / diagonal / column / upper triangle / dot agree with the matrix. Sparse kernels with all three neighbour indices: the stored pattern is the symmetrised k-nearest-neighbour graph plus the diagonal under some tie-break (non-branching formulas over squared distances), stored values as dense. Hierarchical clustering on a kernel of symbolic similarities (kodama runs on the symbolic scalar): all samples labelled, exactly min(c,n) clusters, single linkage with a threshold == connected components of the below-threshold graph (boundary s == threshold exercised exactly), complete linkage necessary conditions; n<=4. Positive semidefiniteness is outside.",
+    technique="symbolic-scalar concolic execution + SMT (z3, uninterpreted exp/ln/pow with monotonicity axioms); native replay",
+    design_ref="DESIGN.md §4 C06"),
+ "C19": dict(
+    text="Every serialisable type whose scalar is generic is produced by its real constructor or a real fit on tiny symbolic data (the symbolic scalar serialises its term handle, so bincode and JSON round trips move terms losslessly): k-means, DBSCAN/OPTICS parameters and analysis, OLS, elastic net single/multi-task, decision tree, both naive Bayes, FTRL, scalers, linear/polynomial SVM, Tweedie model, nearest-neighbour selectors and metrics, parameter sets with symbolic hyper-parameters on both sides of every validity bound, error enums. Obligations per explored path: round trip succeeds, re-serialisation is byte/document identical, restored == original, every public accessor returns identical terms, predictions/transforms of a fresh symbolic row are identical, check() verdict equal, refit from restored parameters identical. Types tied to f64 (logistic, GMM, whiteners, isotonic, vectorisers, epsilon-SVR) get a concrete f64 round trip in the same binary (marked concrete in evidence, not solver-decided). Kernel types cannot be serialised at all (missing derive on KernelInner) and PCA/PLS/ICA/t-SNE crates are not linked: outside.",
+    technique="symbolic-scalar concolic execution with serde round trips; term identity as bit-identity oracle; z3 for path enumeration",
+    design_ref="DESIGN.md §4 C19"),
+ "C11": dict(
+    text="Partial / mostly bug hunting: least-squares fits divide and iterate, so z3's nonlinear real arithmetic proves the obligations only at the smallest shapes (OLS n=2, p=1; some centred elastic-net n=2 cases); elsewhere every explored path is evaluated on its concrete witness (IEEE) with dyadic tolerances and the run is reported non-exhaustive. OLS (linfa-linalg QR on the scalar): residual orthogonal to every feature column and the ones column on full-rank data. Elastic net / lasso / ridge and the multi-task variant (p<=2, n<=3, penalties and l1 ratios on dyadic grids): KKT in w, exact zeros under the l1 threshold, duality gap >= 0, and - on centred features or without intercept - stationarity in the intercept and 'no perturbation beats the gap'. The intercept defect on un-centred features is reported as KNOWN-FINDING by dedicated jobs.",
+    technique="symbolic-scalar concolic execution + SMT (z3 NRA with per-query timeouts), witness evaluation; native f64 replay",
+    design_ref="DESIGN.md §4 C11"),
+ "C13": dict(
+    text="SMO solver at state level through the guarded re-export of the Permutable kernel types (swap keeps every per-position attribute with its sample incl. box bounds; write-back through solver-chosen involutive and non-involutive permutations, classification and regression folding; rho for the nu formulation finite and between the class-wise KKT bounds; do_shrinking never panics; epsilon-SVR assembled as fit_epsilon does) and end to end through the public Fit impls for C-SVC (unequal class weights, shrinking on and off), nu-SVC and one-class with linear and quadratic kernels on n<=4 points: box bounds per class weight, equality constraint, KKT within eps, decision value == sum alpha_i K(x_i,q) - rho from the published coefficients, label == sign, nsupport, finite rho. Exhaustive for 24 (point set, label pattern) combinations with concrete dyadic points and symbolic class weights; symbolic points are bug hunting under per-query timeouts. Gaussian kernel, nu-regression, Platt calibration are outside.",
+    technique="symbolic-scalar concolic execution + SMT (z3); native f64 replay",
+    design_ref="DESIGN.md §4 C13"),
 }
 NA = {
  "C10": "not applicable to solver-based checking within reach: a Gaussian-mixture fit is k-means initialisation + Cholesky factorisations + an EM loop with exp/ln in every step and a data-dependent iteration count; with exp/ln uninterpreted the fitted weights/covariances are unconstrained terms, so positivity, normalisation and the precision-covariance inverse relation cannot be decided, and z3's nonlinear real arithmetic does not get through one EM step (DESIGN.md C10). Only GmmParams::check_ref is covered, under C04.",
